@@ -77,6 +77,10 @@ let register (reg : string -> (Sx.t list -> Sx.t) -> unit) : unit =
       | [cfg; host; cookies; already] ->
         wr_headers (CookieStore.store_clear (rd_ccfg cfg) (rd_str host) (rd_cookies cookies) (rd_list rd_str already))
       | _ -> raise (Bad "cs_clear arity"));
+  reg "make_cookie_string" (function
+      | [cfg; host; name; value; exp] ->
+        wr_str (Cookies.cookie_string (Cookies.make_cookie (rd_ccfg cfg) (rd_str host) (rd_str name) (rd_str value) (rd_z exp)))
+      | _ -> raise (Bad "make_cookie_string arity"));
   reg "split_host_port" (function
       | [x] -> wr_opt (wr_pair wr_str wr_str) (NetAddr.split_host_port (rd_str x))
       | _ -> raise (Bad "split_host_port arity"));
